@@ -14,10 +14,16 @@ modelled; fitted parameters are universally quantified inputs of the theorems.)
 4. `regressor_jacobian_chain_rule`, `linreg_jacobian_exact`, `polyreg_table_is_formal_derivative`,
    `polyreg_jacobian_exact`, `interpolating_reproduces_data`, `surrogate_projects_model`,
    `surrogate_blocks_tile`.
+5. One model object trained several times (`learn` again: other samples, new data, transformers refitted or
+   kept): `retrained_state_is_last_training`, `queries_leave_no_trace`, `history_answers_from_current_state`,
+   `retrained_jacobian_is_derivative`, `retrained_query_jacobian_is_derivative`.
+6. Surrogate discipline created with explicit name lists (reordered inputs, any sub-list of the outputs):
+   `surrogate_selected_outputs`, `surrogate_selected_blocks`, `surrogate_selection_tiles`.
 -/
 import GemseoVerif.Analysis.C18Rbf
 import GemseoVerif.Lemmas.C18Poly
 import GemseoVerif.Lemmas.C18Fit
+import GemseoVerif.Lemmas.C18Sess
 import Mathlib.Tactic.NormNum
 import Mathlib.Tactic.IntervalCases
 
@@ -303,17 +309,8 @@ theorem polyreg_jacobian_exact (tin tout : List (Step ℝ)) (d k m dout P : ℕ)
   GV.C18.regressor_jacobian_chain_rule tin tout d k m dout hin hk hout hm _ _
     (polyreg_jac P k m pw hT coef b) x v
 
-/-- The table of one variable, degree two (`x`, `x²`) is well formed. -/
-example : TableOK 2 1 (fun p _ => p + 1) := by
-  constructor
-  · intro p q hp hq h
-    have := h 0 (by norm_num)
-    omega
-  · intro p idx hp hidx _
-    interval_cases idx
-    interval_cases p
-    · left; decide
-    · right; exact ⟨0, by norm_num, by decide⟩
+/- Non-vacuity of `TableOK`: `tableOK_one_variable_degree_two` (section 5): the table of one variable,
+   degree two (`x`, `x²`) is well formed. -/
 
 /-- **Interpolating kernel models reproduce their learning data** when the weights solve the
     interpolation system (`smooth = 0`). -/
@@ -336,5 +333,152 @@ theorem surrogate_blocks_tile (sizes : List ℕ) (r : ℕ) (hr : r < offsetOf si
   locate sizes r hr
 
 example : offsetOf [1, 2, 3] 3 = 6 ∧ offsetOf [1, 2, 3] 2 = 3 := by decide
+
+/-! ## 5. The same model object trained several times
+
+`Sess` is what the object remembers (fitted transformers, core parameters), `SOp.learn` a call to
+`learn(samples, fit_transformers)` with what this training fits, `SOp.query` a call to `predict` /
+`predict_jacobian`. All histories, all sizes. -/
+
+/-- **The state in force is the one left by the last training**: after any history `pre`, a training and
+    any number of queries, the core parameters are those of that training and the transformers are those
+    of that training if it refitted them (`fit_transformers`), the previous ones otherwise. Nothing computed
+    for an earlier state (a Jacobian table, a prediction) is part of the state. -/
+theorem retrained_state_is_last_training (d dout : ℕ) (s : Sess ℝ) (pre qs : List (SOp ℝ)) (ft : Bool)
+    (tin tout : List (Step ℝ)) (core : Core ℝ) (hq : ∀ op ∈ qs, SOp.isQuery op) :
+    Sess.run d dout s (pre ++ SOp.learn ft tin tout core :: qs)
+      = { trained := true
+          tin := if ft then tin else (Sess.run d dout s pre).tin
+          tout := if ft then tout else (Sess.run d dout s pre).tout
+          core := core } :=
+  run_last_training d dout s pre qs ft tin tout core hq
+
+/-- Queries leave no trace in the state. -/
+theorem queries_leave_no_trace (d dout : ℕ) (s : Sess ℝ) (qs : List (SOp ℝ))
+    (hq : ∀ op ∈ qs, SOp.isQuery op) : Sess.run d dout s qs = s :=
+  run_queries d dout qs hq s
+
+/-- Operation `n` of a history is answered by the state reached by the first `n` operations. -/
+theorem history_answers_from_current_state (d dout : ℕ) (s : Sess ℝ) (ops : List (SOp ℝ)) (n : ℕ)
+    (hn : n < ops.length) :
+    (Sess.answers d dout s ops)[n]? =
+      some (Sess.step d dout (Sess.run d dout s (ops.take n)) ops[n]).2 :=
+  answers_spec d dout ops s n hn
+
+/-- **After any well-formed history of trainings and queries, `predict_jacobian` of the object is the
+    derivative of `predict` of the object** (linear and polynomial cores, any pipelines of scalers and
+    linear reductions on both sides, transformers refitted or kept at each training). -/
+theorem retrained_jacobian_is_derivative (d dout : ℕ) (s0 : Sess ℝ) (h0 : SessInv d dout s0)
+    (ops : List (SOp ℝ)) (hh : HistoryWF d dout s0 ops)
+    (ht : (Sess.run d dout s0 ops).trained = true) (x v : Vec ℝ) (i : ℕ) (hi : i < dout) :
+    HasDerivAt (fun t : ℝ => (Sess.run d dout s0 ops).predict d (fun j => x j + t * v j) i)
+      (mulVec d ((Sess.run d dout s0 ops).jacobian d dout x) v i) 0 :=
+  sess_jacobian_hasDerivAt d dout _ (run_inv d dout ops s0 h0 hh ht) x v i hi
+
+/-- The same for the answers: a query at position `n` of a well-formed history, asked to a trained
+    object, returns `(p, J)` where `p` is the prediction of the state reached by the first `n` operations
+    and `J` is the derivative of the prediction function of that state at the query point. -/
+theorem retrained_query_jacobian_is_derivative (d dout : ℕ) (s0 : Sess ℝ) (h0 : SessInv d dout s0)
+    (ops : List (SOp ℝ)) (hh : HistoryWF d dout s0 ops) (n : ℕ) (hn : n < ops.length) (x : Vec ℝ)
+    (hq : ops[n] = SOp.query x) (ht : (Sess.run d dout s0 (ops.take n)).trained = true) :
+    ∃ p J, (Sess.answers d dout s0 ops)[n]? = some (some (p, J)) ∧
+      p = (Sess.run d dout s0 (ops.take n)).predict d x ∧
+      ∀ (v : Vec ℝ) (i : ℕ), i < dout →
+        HasDerivAt
+          (fun t : ℝ => (Sess.run d dout s0 (ops.take n)).predict d (fun j => x j + t * v j) i)
+          (mulVec d J v i) 0 := by
+  refine ⟨(Sess.run d dout s0 (ops.take n)).predict d x,
+    (Sess.run d dout s0 (ops.take n)).jacobian d dout x, ?_, rfl, ?_⟩
+  · rw [answers_spec d dout ops s0 n hn, hq]
+    rfl
+  · intro v i hi
+    exact retrained_jacobian_is_derivative d dout s0 h0 (ops.take n)
+      (historyWF_take d dout s0 ops n hh) ht x v i hi
+
+/-- The untrained object satisfies the invariant. -/
+noncomputable def untrained : Sess ℝ :=
+  { trained := false, tin := [], tout := [], core := Core.lin (fun _ _ => 0) (fun _ => 0) }
+
+example : SessInv 1 1 untrained := by intro h; simp [untrained] at h
+
+theorem tableOK_one_variable_degree_two : TableOK 2 1 (fun p _ => p + 1) := by
+  constructor
+  · intro p q hp hq h
+    have := h 0 (by norm_num)
+    omega
+  · intro p idx hp hidx _
+    interval_cases idx
+    interval_cases p
+    · left; decide
+    · right; exact ⟨0, by norm_num, by decide⟩
+
+/-- Non-vacuity: a polynomial model with a scaler on the inputs is trained, queried, trained again with
+    other coefficients while keeping its transformers, queried, then trained as refitted: a well-formed
+    history whose final state is trained. -/
+noncomputable def exampleHistory : List (SOp ℝ) :=
+  [SOp.learn true [Step.affine 1 (fun _ => 2) (fun _ => 1)] []
+     (Core.poly 2 (fun p _ => p + 1) (fun _ p => if p = 0 then 3 else 1 / 2) (fun _ => 1)),
+   SOp.query (fun _ => 1),
+   SOp.learn false [] []
+     (Core.poly 2 (fun p _ => p + 1) (fun _ p => if p = 0 then -1 else 4) (fun _ => 0)),
+   SOp.query (fun _ => 1),
+   SOp.learn true [] [Step.affine 1 (fun _ => 3) (fun _ => 0)] (Core.lin (fun _ _ => 5) (fun _ => 7)),
+   SOp.query (fun _ => 2)]
+
+example : HistoryWF 1 1 untrained exampleHistory ∧
+    (Sess.run 1 1 untrained exampleHistory).trained = true := by
+  refine ⟨⟨?_, trivial, ?_, trivial, ?_, trivial, trivial⟩, rfl⟩
+  · refine ⟨fun _ => ⟨⟨rfl, trivial⟩, trivial⟩, fun h => by simp at h, ?_⟩
+    exact tableOK_one_variable_degree_two
+  · refine ⟨fun h => by simp at h, fun _ => rfl, ?_⟩
+    exact tableOK_one_variable_degree_two
+  · exact ⟨fun _ => ⟨trivial, ⟨rfl, trivial⟩⟩, fun h => by simp at h, trivial⟩
+
+/-! ## 6. Surrogate discipline created with explicit name lists
+
+`selOut`, `selIn`: the requested names as positions in `model.output_names` / `model.input_names`
+(any list: sub-lists, reorderings). -/
+
+/-- **Outputs by requested names**: the array of the outputs of the discipline, in the order of its
+    output grammar, holds for the `n`-th requested variable the window of the model's prediction at the
+    MODEL's offset of that variable (not at the offset the variable has among the requested ones). -/
+theorem surrogate_selected_outputs {K : Type} [Field K] (outSizes : List ℕ) (v : Vec K)
+    (selOut : List ℕ) (n a : ℕ) (hn : n < selOut.length)
+    (ha : a < outSizes.getD (selOut.getD n 0) 0) :
+    concatSel outSizes v selOut (offsetOf (selSizes outSizes selOut) n + a)
+      = v (offsetOf outSizes (selOut.getD n 0) + a) :=
+  concatSel_spec outSizes v selOut n a hn ha
+
+/-- **Jacobian blocks by requested names**: the block of the `n`-th requested output and the `m`-th
+    requested input is the window of the model's Jacobian at the model's offsets of the two variables. -/
+theorem surrogate_selected_blocks {K : Type} [Field K] (outSizes inSizes : List ℕ) (J : Mat K)
+    (selOut selIn : List ℕ) (n m a b : ℕ) :
+    surBlock outSizes inSizes J selOut selIn n m a b
+      = J (offsetOf outSizes (selOut.getD n 0) + a) (offsetOf inSizes (selIn.getD m 0) + b) :=
+  rfl
+
+/-- Every component of the output array of the discipline is a component of exactly one requested
+    variable, taken from the model's prediction at the model's offset of this variable. -/
+theorem surrogate_selection_tiles {K : Type} [Field K] (outSizes : List ℕ) (v : Vec K)
+    (selOut : List ℕ) (r : ℕ)
+    (hr : r < offsetOf (selSizes outSizes selOut) (selSizes outSizes selOut).length) :
+    ∃ n a, n < selOut.length ∧ a < outSizes.getD (selOut.getD n 0) 0 ∧
+      concatSel outSizes v selOut r = v (offsetOf outSizes (selOut.getD n 0) + a) := by
+  obtain ⟨n, a, hn, ha, hra⟩ := locate (selSizes outSizes selOut) r hr
+  have hn' : n < selOut.length := by simpa [selSizes] using hn
+  have hsz : (selSizes outSizes selOut)[n] = outSizes.getD (selOut.getD n 0) 0 := by
+    simp [selSizes, List.getD_eq_getElem?_getD, hn']
+  refine ⟨n, a, hn', hsz ▸ ha, ?_⟩
+  rw [hra]
+  exact concatSel_spec outSizes v selOut n a hn' (hsz ▸ ha)
+
+/-- Non-vacuity, and why the offsets must be the model's: outputs of sizes 1, 2, 1 and the second one
+    requested alone: the discipline returns entries 1 and 2 of the prediction (splitting the prediction
+    by the requested names alone would return entries 0 and 1). -/
+example : concatSel [1, 2, 1] (fun i => (i : ℚ)) [1] 0 = 1 ∧
+    concatSel [1, 2, 1] (fun i => (i : ℚ)) [1] 1 = 2 ∧
+    concatSel [1, 2, 1] (fun i => (i : ℚ)) [2, 0] 0 = 3 ∧
+    concatSel [1, 2, 1] (fun i => (i : ℚ)) [2, 0] 1 = 0 := by
+  refine ⟨?_, ?_, ?_, ?_⟩ <;> norm_num [concatSel, offsetOf]
 
 end GV.C18.Claims
